@@ -30,8 +30,10 @@ import (
 type fileSpec struct {
 	File    string   `json:"file"`
 	NS      string   `json:"ns"`
-	Funcs   []string `json:"funcs"`
+	Funcs   []string `json:"funcs"` // "f", "Recv.m", or "dispatch:Iface.m" (emit the dynamic dispatch of method m over the implementers)
 	Structs []string `json:"structs"`
+	// interface name -> implementing struct types (all listed under structs): the interface becomes a Lean sum type
+	Interfaces map[string][]string `json:"interfaces"`
 }
 
 type failure struct{ msg string }
@@ -74,6 +76,7 @@ type tr struct {
 	structs map[string]bool   // package-local structs that are translated
 	env     map[string]string // local variable -> Lean type ("" if unknown)
 	recvOf  map[string]string // method name -> receiver type for translated methods (to resolve x.m(...))
+	ifaces  map[string][]string // package-local interface -> the struct types that implement it (from the spec)
 }
 
 func (t *tr) leanType(e ast.Expr) string {
@@ -96,16 +99,25 @@ func (t *tr) leanType(e ast.Expr) string {
 		if twinned[x.Sel.Name] {
 			return x.Sel.Name
 		}
+	case *ast.ArrayType:
+		if x.Len == nil {
+			return "(List " + t.leanType(x.Elt) + ")"
+		}
 	case *ast.MapType:
 		if k, ok := x.Key.(*ast.Ident); ok && k.Name == "string" {
 			if v, ok := x.Value.(*ast.Ident); ok && v.Name == "string" {
 				return "StrMap"
 			}
+			// any other map with string keys: an association list (the twins keep it sorted by key, so that == is map equality)
+			return "(List (String × " + t.leanType(x.Value) + "))"
 		}
 	case *ast.InterfaceType:
 		if x.Methods == nil || len(x.Methods.List) == 0 {
 			return "Obj"
 		}
+	}
+	if id, ok := e.(*ast.Ident); ok && t.ifaces[id.Name] != nil {
+		return id.Name
 	}
 	failf(t.fset, e, "unsupported type")
 	return ""
@@ -377,6 +389,12 @@ func (t *tr) call(c *ast.CallExpr) string {
 				return "(" + ln + " " + strings.Join(append([]string{recv}, args()...), " ") + ")"
 			}
 		}
+		if rt := t.typeOfExpr(f.X); rt != "" && t.ifaces[rt] != nil {
+			if ln, ok := t.funcs["dispatch:"+rt+"."+f.Sel.Name]; ok {
+				return "(" + ln + " " + strings.Join(append([]string{recv}, args()...), " ") + ")"
+			}
+			failf(t.fset, c, "method %s of interface %s is not dispatched (add dispatch:%s.%s before this function)", f.Sel.Name, rt, rt, f.Sel.Name)
+		}
 		switch f.Sel.Name { // methods of twinned types (defined in GoTypes.lean)
 		case "Equal", "Before":
 			return "(" + recv + "." + f.Sel.Name + " " + strings.Join(args(), " ") + ")"
@@ -404,17 +422,66 @@ func isLogCall(s ast.Stmt) bool {
 	return ok && logPkgs[p.Name]
 }
 
-func (t *tr) block(stmts []ast.Stmt, ind string, out *[]string) {
-	n := 0
-	for _, s := range stmts {
-		if isLogCall(s) {
-			continue
-		}
-		n++
-		t.stmt(s, ind, out)
+// assertWithGuard recognises   v, ok := x.(*T)   followed by   if !ok { return R }   (R a constant expression).
+func (t *tr) assertWithGuard(a, b ast.Stmt) (v string, subj ast.Expr, typ ast.Expr, ret ast.Expr, ok bool) {
+	as, isAs := a.(*ast.AssignStmt)
+	if !isAs || as.Tok != token.DEFINE || len(as.Lhs) != 2 || len(as.Rhs) != 1 {
+		return
 	}
-	if n == 0 {
+	ta, isTa := as.Rhs[0].(*ast.TypeAssertExpr)
+	if !isTa || ta.Type == nil {
+		return
+	}
+	okName := as.Lhs[1].(*ast.Ident).Name
+	ifs, isIf := b.(*ast.IfStmt)
+	if !isIf || ifs.Init != nil || ifs.Else != nil || len(ifs.Body.List) != 1 {
+		return
+	}
+	un, isUn := ifs.Cond.(*ast.UnaryExpr)
+	if !isUn || un.Op != token.NOT {
+		return
+	}
+	if id, isId := un.X.(*ast.Ident); !isId || id.Name != okName {
+		return
+	}
+	rs, isRet := ifs.Body.List[0].(*ast.ReturnStmt)
+	if !isRet || len(rs.Results) != 1 {
+		return
+	}
+	return as.Lhs[0].(*ast.Ident).Name, ta.X, ta.Type, rs.Results[0], true
+}
+
+func (t *tr) block(stmts []ast.Stmt, ind string, out *[]string) {
+	var live []ast.Stmt
+	for _, s := range stmts {
+		if !isLogCall(s) {
+			live = append(live, s)
+		}
+	}
+	if len(live) == 0 {
 		*out = append(*out, ind+"pure ()")
+		return
+	}
+	for i := 0; i < len(live); i++ {
+		if i+1 < len(live) {
+			if v, subj, typ, ret, ok := t.assertWithGuard(live[i], live[i+1]); ok {
+				// the rest of the block runs under the successful assertion
+				lt := t.leanType(typ)
+				*out = append(*out, ind+"match "+t.expr(subj)+" with")
+				saved, had := t.env[v]
+				t.env[v] = lt
+				*out = append(*out, ind+"| ."+lt+" "+id(v)+" =>")
+				t.block(live[i+2:], ind+"  ", out)
+				if had {
+					t.env[v] = saved
+				} else {
+					delete(t.env, v)
+				}
+				*out = append(*out, ind+"| _ => return "+t.expr(ret))
+				return
+			}
+		}
+		t.stmt(live[i], ind, out)
 	}
 }
 
@@ -537,11 +604,47 @@ func (t *tr) stmt(s ast.Stmt, ind string, out *[]string) {
 		if !hasDefault {
 			emit("| _ => pure ()")
 		}
+	case *ast.RangeStmt:
+		// only the universally quantified check:   for i := range xs { if cond { return R } }   with no other effect;
+		// it becomes   if (List.range (len xs)).any (fun i => cond) then return R
+		if x.Value != nil || x.Key == nil || x.Tok != token.DEFINE || len(x.Body.List) != 1 {
+			failf(t.fset, x, "range loop outside the supported form (for i := range xs { if c { return r } })")
+		}
+		ifs, ok := x.Body.List[0].(*ast.IfStmt)
+		if !ok || ifs.Init != nil || ifs.Else != nil || len(ifs.Body.List) != 1 {
+			failf(t.fset, x, "range loop body is not a single guarded return")
+		}
+		rs, ok := ifs.Body.List[0].(*ast.ReturnStmt)
+		if !ok || len(rs.Results) != 1 {
+			failf(t.fset, x, "range loop body is not a single guarded return")
+		}
+		iv := x.Key.(*ast.Ident).Name
+		saved, had := t.env[iv]
+		t.env[iv] = "Nat"
+		cond := t.expr(ifs.Cond)
+		if had {
+			t.env[iv] = saved
+		} else {
+			delete(t.env, iv)
+		}
+		emit("if (List.range (Go.len " + t.expr(x.X) + ").toNat).any (fun " + id(iv) + " => " + cond + ") then")
+		emit("  return " + t.expr(rs.Results[0]))
 	case *ast.BlockStmt:
 		t.block(x.List, ind, out)
 	default:
 		failf(t.fset, s, "unsupported statement %T", s)
 	}
+}
+
+func target0(pkgs map[string]*ast.Package, root, file string) *ast.File {
+	for _, p := range pkgs {
+		for n, f := range p.Files {
+			if filepath.Clean(n) == filepath.Clean(filepath.Join(root, file)) {
+				return f
+			}
+		}
+	}
+	return &ast.File{}
 }
 
 func recvName(fd *ast.FuncDecl) string {
@@ -591,7 +694,10 @@ func main() {
 			}
 			continue
 		}
-		t := &tr{fset: fset, consts: map[string]string{}, funcs: map[string]string{}, structs: map[string]bool{}}
+		t := &tr{fset: fset, consts: map[string]string{}, funcs: map[string]string{}, structs: map[string]bool{}, ifaces: sp.Interfaces}
+		if t.ifaces == nil {
+			t.ifaces = map[string][]string{}
+		}
 		for _, s := range sp.Structs {
 			t.structs[s] = true
 		}
@@ -634,6 +740,10 @@ func main() {
 			continue
 		}
 		for _, f := range sp.Funcs {
+			if strings.HasPrefix(f, "dispatch:") {
+				t.funcs[f] = sp.NS + "." + strings.ReplaceAll(strings.TrimPrefix(f, "dispatch:"), ".", "_")
+				continue
+			}
 			t.funcs[f] = sp.NS + "." + strings.ReplaceAll(f, ".", "_")
 		}
 		fmt.Fprintf(&b, "namespace %s\n\n", sp.NS)
@@ -669,7 +779,7 @@ func main() {
 								fs = append(fs, fmt.Sprintf("  %s : %s := %s", id(nm.Name), lt, zeroOf(lt)))
 							}
 						}
-						fmt.Fprintf(&b, "structure %s where\n%s\n  deriving Repr, BEq, DecidableEq\n\n", sn, strings.Join(fs, "\n"))
+						fmt.Fprintf(&b, "structure %s where\n%s\n  deriving Repr, BEq, DecidableEq, Inhabited\n\n", sn, strings.Join(fs, "\n"))
 						res.Done = append(res.Done, sp.File+":type "+sn)
 					}()
 				}
@@ -678,8 +788,70 @@ func main() {
 				res.Failed[sp.File+":type "+sn] = "struct not found"
 			}
 		}
+		// interfaces as sum types over their implementers
+		var inames []string
+		for in := range sp.Interfaces {
+			inames = append(inames, in)
+		}
+		sort.Strings(inames)
+		for _, in := range inames {
+			fmt.Fprintf(&b, "inductive %s where\n", in)
+			for _, impl := range sp.Interfaces[in] {
+				fmt.Fprintf(&b, "  | %s (c : %s)\n", impl, impl)
+			}
+			fmt.Fprintf(&b, "  deriving Repr\n\n")
+		}
 		// functions, in the order of the spec (callees must be listed before callers)
 		for _, fn := range sp.Funcs {
+			if strings.HasPrefix(fn, "dispatch:") {
+				// dynamic dispatch of an interface method over the implementers' translated methods
+				im := strings.SplitN(strings.TrimPrefix(fn, "dispatch:"), ".", 2)
+				impls := sp.Interfaces[im[0]]
+				var target *ast.FuncDecl
+				for _, d := range target0(pkgs, root, sp.File).Decls {
+					if x, ok := d.(*ast.FuncDecl); ok && x.Body != nil && x.Name.Name == im[1] && len(impls) > 0 && recvName(x) == impls[0] {
+						target = x
+					}
+				}
+				if target == nil || len(impls) == 0 {
+					res.Failed[sp.File+":"+fn] = "no implementer method found"
+					continue
+				}
+				func() {
+					defer func() {
+						if r := recover(); r != nil {
+							if fl, ok := r.(failure); ok {
+								res.Failed[sp.File+":"+fn] = fl.msg
+								return
+							}
+							panic(r)
+						}
+					}()
+					var ps, as []string
+					if target.Type.Params != nil {
+						for _, p := range target.Type.Params.List {
+							lt := t.leanType(p.Type)
+							for _, nm := range p.Names {
+								ps = append(ps, fmt.Sprintf("(%s : %s)", id(nm.Name), lt))
+								as = append(as, id(nm.Name))
+							}
+						}
+					}
+					rt := t.leanType(target.Type.Results.List[0].Type)
+					ln := im[0] + "_" + im[1]
+					fmt.Fprintf(&b, "/-- dynamic dispatch of %s.%s -/\ndef %s (self : %s) %s : %s :=\n  match self with\n", im[0], im[1], ln, im[0], strings.Join(ps, " "), rt)
+					for _, impl := range impls {
+						callee, ok := t.funcs[impl+"."+im[1]]
+						if !ok {
+							failf(fset, target, "%s.%s is not translated", impl, im[1])
+						}
+						fmt.Fprintf(&b, "  | .%s c => %s c %s\n", impl, callee, strings.Join(as, " "))
+					}
+					b.WriteString("\n")
+					res.Done = append(res.Done, sp.File+":"+fn)
+				}()
+				continue
+			}
 			var fd *ast.FuncDecl
 			for _, d := range target.Decls {
 				if x, ok := d.(*ast.FuncDecl); ok && x.Body != nil {
